@@ -10,6 +10,7 @@ import (
 
 	"github.com/ClickHouse/ch-go/proto"
 
+	"verif/checks/seq/reg"
 	"verif/vk"
 )
 
@@ -82,7 +83,7 @@ func writerFingerprint(w *proto.Writer, pending []byte) uint64 {
 
 // C14 — the vectored writer emits exactly what was chained, once, in order.
 func C14(c *vk.Ctx) {
-	c.Rule("explicit-state search over all operation sequences of length <= n (quick 6, thorough 7) over the 13-operation alphabet {ChainBuffer appending 0/1/3/70 bytes or exactly the free capacity (buffer full at the next cut), ChainWrite of a 0/1/5-byte slice, Flush to a writer that accepts everything / fails after 0, 1, 4 bytes / reports a short write} x initial buffer capacity {0, 64, 1024, 4096}; every byte is position-unique; reference model = the byte string pending since the last flush; after every Flush the bytes delivered must be exactly pending (a prefix of it when the writer failed) and nothing delivered earlier may appear again. Plus path equivalence WriteBlock+Flush = EncodeBlock on a column corpus (fifteen columns incl. containers with rows whose LowCardinality / JSON element column is empty, strings of 1 KiB / 4 KiB / 70 KB followed by rows of other lengths, bare, in an array and as dictionary values, and the stateful LowCardinality / Array(LowCardinality) / Map(., LowCardinality) / JSON, with 3 rows and with zero rows). states = distinct private writer states (reflect fingerprint incl. buffer length, offset, vector shape); transitions = operations executed.")
+	c.Rule("explicit-state search over all operation sequences of length <= n (quick 6, thorough 7) over the 13-operation alphabet {ChainBuffer appending 0/1/3/70 bytes or exactly the free capacity (buffer full at the next cut), ChainWrite of a 0/1/5-byte slice, Flush to a writer that accepts everything / fails after 0, 1, 4 bytes / reports a short write} x initial buffer capacity {0, 64, 1024, 4096}; every byte is position-unique; reference model = the byte string pending since the last flush; after every Flush the bytes delivered must be exactly pending (a prefix of it when the writer failed) and nothing delivered earlier may appear again. Plus path equivalence WriteBlock+Flush = EncodeBlock on a column corpus (fifteen columns incl. containers with rows whose LowCardinality / JSON element column is empty, strings of 1 KiB / 4 KiB / 70 KB followed by rows of other lengths, bare, in an array and as dictionary values, and the stateful LowCardinality / Array(LowCardinality) / Map(., LowCardinality) / JSON, with 3 rows and with zero rows); WriteColumn+Flush = EncodeColumn for every base column and every composition over Nothing at 255 / 256 / 1023 / 1024 / 1025 / 2048 / 4096 / 4097 / 8192 rows (thorough also 3072 / 16384 / 65536 / 131072). states = distinct private writer states (reflect fingerprint incl. buffer length, offset, vector shape); transitions = operations executed.")
 	depth := 6
 	if !c.Quick() {
 		depth = 7
@@ -276,6 +277,59 @@ func C14(c *vk.Ctx) {
 				c.Violation("C14/path/write-differs-from-encode", fmt.Sprint("rev=", rev, "/rows=", rows), fmt.Sprintf("WriteBlock+Flush %s\nEncodeBlock %s", vk.Hex(sink.got), vk.Hex(eb.Buf)), nil)
 			}
 			c.Eval("path equivalence", 1)
+		}
+	}
+	// path equivalence at row counts at and next to the chunk sizes a zero-copy writer may work
+	// in: every base column and every composition over Nothing, WriteColumn+Flush = EncodeColumn
+	{
+		var entries []reg.Entry
+		for _, e := range regEntries(c) {
+			if (e.Depth == 0 || strings.Contains(e.Label, "Nothing")) && !noRef(e.Label) {
+				entries = append(entries, e)
+			}
+		}
+		counts := []int{255, 256, 1023, 1024, 1025, 2048, 4096, 4097, 8192}
+		if !c.Quick() {
+			counts = append(counts, 3072, 16384, 65536, 131072)
+		}
+		var kn int64
+		for _, e := range entries {
+			for _, rows := range counts {
+				kn++
+				id := fmt.Sprintf("path-rows/%s/rows=%d", e.Label, rows)
+				if (c.Only == "" && !c.Mine(kn)) || (c.Only != "" && c.Only != id) {
+					continue
+				}
+				c.Current(id)
+				msg, fn := vk.Recover(func() {
+					idx := make([]int, rows)
+					for i := range idx {
+						idx[i] = (i*7 + i/251) % 5
+					}
+					col, _, _, err := build(e, idx)
+					if err != nil {
+						return
+					}
+					if p, ok := col.C.(proto.Preparable); ok {
+						if err := p.Prepare(); err != nil {
+							return
+						}
+					}
+					var eb proto.Buffer
+					col.C.EncodeColumn(&eb)
+					sink := &sink14{failAt: -1}
+					w := proto.NewWriter(sink, new(proto.Buffer))
+					col.C.WriteColumn(w)
+					if _, err := w.Flush(); err != nil || !bytes.Equal(sink.got, eb.Buf) {
+						c.Violation("C14/path/write-column-differs/"+e.Label, id, fmt.Sprintf("WriteColumn+Flush gives %d bytes, EncodeColumn %d (first difference at %d, err %v)", len(sink.got), len(eb.Buf), firstDiff(sink.got, eb.Buf), err), nil)
+					}
+				})
+				if msg != "" {
+					c.Violation("C14/panic/"+fn, id, msg, nil)
+				}
+				c.Eval("path equivalence", 1)
+				c.DistinctN(1)
+			}
 		}
 	}
 	c.Sample(map[string]any{"sequence": []string{"buf3", "write5", "flush-fail@4", "buf1", "flush"}, "model": "pending=8 bytes; failed flush delivers a 4-byte prefix and drops the rest; the last flush delivers exactly the 1 new byte"})
